@@ -93,6 +93,10 @@ pub fn generate(g: &mut G, _index: u64) -> Scenario {
         };
         fam.insert(0, at, ops);
     }
+    // sometimes a restart is requested while senders are parked on the full mailbox
+    if g.chance(1, 6) {
+        add_slow_restart(g, &mut fam);
+    }
     fam.sc.sched = g.sched(true);
     fam.sc.settle_ns = 200;
     fam.sc
